@@ -7,6 +7,8 @@ from common import close, num, quiet, unval
 from props.disc_common import NpShim, hash_est_value
 
 ESTIMATORS = ["gaussian", "knn", "kde", "geometric_knn", "poisson"]
+_FORM = [0]
+from common import call_form  # noqa: E402
 
 
 def run_shuffle(X, Y, Z, obs, alpha, n, rng_arg, est_fn, information="gaussian", **kw):
@@ -25,7 +27,8 @@ def run_shuffle(X, Y, Z, obs, alpha, n, rng_arg, est_fn, information="gaussian",
     D.np, D.conditional_mutual_information = shim, spy
     try:
         with quiet():
-            res = D.shuffle_test(X, Y, Z, obs, alpha=alpha, n_shuffles=n, rng=rng_arg, information=information, **kw)
+            _FORM[0] += 1      # every documented call form, in turn
+            res = call_form(D.shuffle_test, "shuffle_test", _FORM[0], X=X, Y=Y, Z=Z, observed_cmi=obs, alpha=alpha, n_shuffles=n, rng=rng_arg, information=information, **kw)
     finally:
         D.np, D.conditional_mutual_information = saved
     perms = [p for k, p in shim.log if k == "permutation"]
